@@ -1237,6 +1237,20 @@ func (g *gen) inject() {
 		q.Fields = append(q.Fields, &Field{Name: name, T: t, Args: args})
 	}
 	intT := func() *Ref { return &Ref{Name: "Int"} }
+	if g.o.Inject == "" && g.o.Seed%3 == 0 {
+		// type names that normalise to one Go identifier WITHOUT the failing conjunction of the
+		// known finding (no interface involved): modelgen numbers them (BcItem, BcItem0, BcItem1)
+		for i, n := range []string{"Bc_Item", "BcItem", "bc_item"} {
+			add(&Def{Kind: "object", Name: n, Fields: []*Field{{Name: "bcx", T: intT()}, {Name: "bcs", T: &Ref{Name: "String"}}}})
+			qf(fmt.Sprintf("bcItem%d", i), &Ref{Name: n})
+		}
+		for i, n := range []string{"Bc_Kind", "BcKind", "bc_kind"} {
+			e := add(&Def{Kind: "enum", Name: n, Values: []*EnumVal{{Name: "LO"}, {Name: "HI"}}})
+			g.enums = append(g.enums, e)
+			qf(fmt.Sprintf("bcKind%d", i), &Ref{Name: n}, &Arg{Name: "k", T: &Ref{Name: n}})
+		}
+		g.feat("benign_type_name_collisions")
+	}
 	switch g.o.Inject {
 	case "type_collision":
 		add(&Def{Kind: "interface", Name: "KfShape", Fields: []*Field{{Name: "kfx", T: intT()}}})
